@@ -22,6 +22,7 @@ def _explore_worker(work):
     r = E._explore(finfo, c, list(work), max_paths, jobify)
     r["trusted_used"], r["contracts_used"], r["bounded"] = E.trusted_used, E.contracts_used, E.bounded
     r["decorators_seen"] = E.decorators_seen
+    r["auto_fields"] = set(E.auto_fields)
     return r
 
 
@@ -88,6 +89,7 @@ class Engine:
         for qn in self.tables["classes"]:
             self._class_by_short.setdefault(qn.rsplit(".", 1)[-1], []).append(qn)
         self.decorators_seen = {}
+        self.auto_fields = set()
 
     # ---- registry
     def contract(self, qualname, **c):
@@ -189,6 +191,29 @@ class Engine:
 
     def class_is_open(self, cls):
         return True
+
+    def infer_field_type(self, cls, name):
+        """type of an undeclared field, read off a literal initialiser `self.<name> = <constant>` in __init__"""
+        for c in self.mro(cls):
+            fi = self.src.funcs.get(c + ".__init__")
+            if fi is None:
+                continue
+            for n in ast.walk(fi.node):
+                if isinstance(n, ast.Assign) and len(n.targets) == 1 and isinstance(n.targets[0], ast.Attribute) \
+                        and isinstance(n.targets[0].value, ast.Name) and n.targets[0].value.id == "self" \
+                        and n.targets[0].attr == name and isinstance(n.value, ast.Constant):
+                    v = n.value.value
+                    if isinstance(v, bool):
+                        return "bool"
+                    if isinstance(v, int):
+                        return "int"
+                    if isinstance(v, bytes):
+                        return "bytes"
+                    if isinstance(v, str):
+                        return "str"
+                    if v is None:
+                        return None
+        return None
 
     def is_exception_name(self, name):
         name = self.canon_class(name)
@@ -373,6 +398,7 @@ class Engine:
                 self.trusted_used.update(p["trusted_used"])
                 self.contracts_used.update(p["contracts_used"])
                 self.bounded.update(p["bounded"])
+                self.auto_fields.update(p.get("auto_fields", ()))
                 for k, v in p["decorators_seen"].items():
                     self.decorators_seen.setdefault(k, set()).update(v)
             if res["paths"] > max_paths:
